@@ -258,7 +258,7 @@ func validateBatch(c *core.Ctx, devs []string, schema *ast.Schema, sdl string, d
 }
 
 func checkC08(c *core.Ctx) {
-	c.Rule = "cases are (schema, document) pairs: schemas from the typed generator (interfaces implementing interfaces, unions, oneOf inputs, repeatable directives, defaults, custom scalars, nested list/non-null); documents valid by construction, the same with 1-3 faults injected from a catalogue with at least one operator per rule (single-fault documents are the majority), and type-blind random documents over the schema's vocabulary. The real validator's verdict (no errors / errors) is compared with Rules.tla's verdict evaluated by TLC on the parsed document and the loaded schema (Rules_Trace); generator intent is the third witness. Non-trivial = faulty, type-blind and hand-written documents, and the small-scope documents that have a fragment, a type condition or an error; distinct by text"
+	c.Rule = "cases are (schema, document) pairs: schemas from the typed generator (interfaces implementing interfaces, unions, oneOf inputs, repeatable directives, defaults, custom scalars, nested list/non-null); documents valid by construction, the same with 1-3 faults injected from a catalogue with at least one operator per rule (single-fault documents are the majority), and type-blind random documents over the schema's vocabulary. The real validator's verdict (no errors / errors) is compared with Rules.tla's verdict evaluated by TLC on the parsed document and the loaded schema (Rules_Trace); generator intent is the third witness. Before that, every ordered pair of type references up to list depth 3 (3,600 pairs, TypeAlgebra_MC, whose laws TLC checks) is replayed into ast.Type.String / Name / IsCompatible, the constructors and the parser. Non-trivial = faulty, type-blind and hand-written documents, and the small-scope documents that have a fragment, a type condition or an error; distinct by text"
 	c.Assumptions = []string{
 		"Rules.tla is the reading of section 5 of the October-2021 specification for the rules the library implements (plus the oneOf input rule and the introspection depth limit as the library documents them)",
 		"the document given to the specification is the projection of the real parser's output (C05) and the schema the projection of the real loader's output (C07)",
@@ -266,6 +266,11 @@ func checkC08(c *core.Ctx) {
 	}
 	devs := rulesDevs(c)
 	c.SetExtra("deviations_enabled", devs)
+	// the type relations the rules are written with (module TypeAlgebra), bound to the library's ast.Type helpers
+	typeAlgebra(c)
+	if c.HasInternal() {
+		return
+	}
 	nschemas, nvalid, nfaulty, nblind := 3, 40, 120, 40
 	if c.Thorough() {
 		nschemas, nvalid, nfaulty, nblind = 30, 150, 500, 150
